@@ -348,6 +348,26 @@ def rand_argv(rng, cfg, profile):
             toks.append(rng.choice([b"-", b"---x", b"-=", b"--=x", b"-=x", b"---", b"--=", b"----", b"---" + name]))
         else:               # arbitrary bytes
             toks.append(rbytes(rng, rng.randint(1, 6), b"-=ao \nz\x80"))
+    if rng.random() < profile.get("many", 0.012) and decl:
+        # many repetitions: counts, list lengths and numbers of positionals beyond 127 / 255 (narrow counters)
+        d = rng.choice(decl)
+        name = bytes(d["name"])
+        k = rng.choice([128, 200, 256, 257, 300])
+        if d["kind"] == "toggle":
+            l = bytes([d["letter"]]) if d["letter"] else b""
+            form = rng.random()
+            if l and form < 0.4:
+                rep = [b"-" + l] * k
+            elif l and form < 0.7:
+                rep = [b"-" + l * k]
+            else:
+                rep = [b"--" + name] * k
+        elif d["kind"] == "multi":
+            rep = [b"--" + name + b"=" + str(i).encode() for i in range(k)]
+        else:
+            rep = [b"p%d" % i for i in range(k)]
+        at = rng.randint(0, len(toks))
+        toks[at:at] = rep
     if rng.random() < long_p and decl:
         # very long tokens (the regex / stack-depth cases)
         d = rng.choice(decl)
